@@ -69,6 +69,7 @@ def main():
         print('HARNESS-ERROR: cannot import check for %s' % pid)
         sys.exit(2)
 
+    real_out = sys.stdout        # a check's setup may replace sys.stdout in this process (serial phases, replays)
     if args.replay:
         sys.exit(report.do_replay(mod, pid, args.replay))
 
@@ -80,9 +81,10 @@ def main():
     def progress(ph, res):
         print('[%s] phase %-28s execs=%-8d states=%-7d outcomes=%-5d fail-classes=%d  %.1fs%s' % (
             pid, ph.name, res.executions, len(res.states), len(res.outcomes), len(res.failures),
-            res.wall_s, '  CAP-HIT' if res.cap_hit else ''), flush=True)
+            res.wall_s, '  CAP-HIT' if res.cap_hit else ''), flush=True, file=real_out)
 
     results = explore.run_phases(phases, args.tier, args.workers, progress)
+    sys.stdout = real_out
     code = report.finish(mod, pid, args.tier, seed, phases, results, time.time() - t0,
                          write_evidence=not args.no_evidence and not args.phase)
     sys.exit(code)
